@@ -2,11 +2,15 @@ package main
 
 // C19 — the in-memory object store answers queries like the bolt-backed store.
 //
-// Case line:   o <rows> <filter> <sort> <skip> <limit> <order>
+// Case line:   o <rows> <filter> <sort> <skip> <limit> <order> [<variant>]
+//
+//	<filter>   atom | and~F~F | or~F~F | not~F (prefix notation) | setfn.<fn>.<symbol> (a set function on that symbol)
+//	<variant>  full (default; a symbol of every Add…Symbol kind) | sub (only id, s, i) | noid (no id symbol)
 //
 //	the dataset is loaded into the bolt store "things" and into an objectz.ObjectStore with the same
 //	field values (see c02_c19_common.go); <order> is the order in which the object store's iterator
-//	yields the objects: fwd | rev | rot<k> | map (objectz.IterateMap over a Go map)
+//	yields the objects: fwd | rev | rot<k> | map (objectz.IterateMap over a Go map) | nil (the iterator function
+//	returns nil: generated for the empty datasets only, where the bolt store holds nothing either)
 //
 // Output line:
 //
@@ -31,10 +35,20 @@ func init() {
 
 func c19Exec(line string) string {
 	f := fields(line)
-	if len(f) != 7 || f[0] != "o" {
+	if len(f) == 7 {
+		f = append(f, "full")
+	}
+	if len(f) != 8 || f[0] != "o" {
 		return "bad-case"
 	}
 	s := pgLoad(f[1])
+	ostore := s.objs
+	switch f[7] {
+	case "sub":
+		ostore = s.objsSub
+	case "noid":
+		ostore = s.objsNoId
+	}
 	text := pgQueryText(f[2], f[3], f[4], f[5])
 	var out []string
 	_ = s.db.View(func(tx *bbolt.Tx) error {
@@ -44,6 +58,7 @@ func c19Exec(line string) string {
 	})
 	// iteration order of the object store
 	s.useMap = f[6] == "map"
+	s.nilIter = f[6] == "nil"
 	s.objOrder = append(s.objOrder[:0], s.rows...)
 	switch {
 	case f[6] == "rev":
@@ -58,14 +73,14 @@ func c19Exec(line string) string {
 			s.objOrder = append(append([]*pgThing{}, s.objOrder[k:]...), s.objOrder[:k]...)
 		}
 	}
-	objs, count, err := s.objs.QueryEntities(text)
+	objs, count, err := ostore.QueryEntities(text)
 	out = append(out, "obj="+pgIds(pgThingIds(objs), count, err))
-	q, perr := ast.Parse(s.objs, text)
+	q, perr := ast.Parse(ostore, text)
 	if perr != nil {
 		out = append(out, "objc=err")
 	} else {
-		o1, c1, e1 := s.objs.QueryEntitiesC(q)
-		o2, c2, e2 := s.objs.QueryEntitiesC(q)
+		o1, c1, e1 := ostore.QueryEntitiesC(q)
+		o2, c2, e2 := ostore.QueryEntitiesC(q)
 		st := "nil"
 		if q.GetSkip() != nil {
 			st = strconv.FormatInt(*q.GetSkip(), 10)
@@ -83,6 +98,132 @@ func c19Exec(line string) string {
 
 func c19Emit(out *bufio.Writer, ds, filter, sortTok, skip, limit, order string) {
 	fmt.Fprintf(out, "o %s %s %s %s %s %s\n", ds, filter, sortTok, skip, limit, order)
+}
+
+func c19EmitV(out *bufio.Writer, ds, filter, sortTok, skip, limit, order, variant string) {
+	fmt.Fprintf(out, "o %s %s %s %s %s %s %s\n", ds, filter, sortTok, skip, limit, order, variant)
+}
+
+// ---- the enlarged universe: object-store variants, nested filters, unknown symbols, set functions on non-set
+// symbols, long / duplicate sort lists, NaN data
+
+// c19GenNested: and / or / not over the atoms (depth <= 3)
+func c19GenNested(r *rng, depth int) string {
+	if depth == 0 || r.chance(1, 3) {
+		a := c19GenFilter(r)
+		return a
+	}
+	switch r.intn(3) {
+	case 0:
+		return "and~" + c19GenNested(r, depth-1) + "~" + c19GenNested(r, depth-1)
+	case 1:
+		return "or~" + c19GenNested(r, depth-1) + "~" + c19GenNested(r, depth-1)
+	}
+	return "not~" + c19GenNested(r, depth-1)
+}
+
+// c19GenLongSort: 0..9 sort fields, duplicates welcome, id anywhere, sometimes an unknown field
+func c19GenLongSort(r *rng) string {
+	n := r.intn(10)
+	if n == 0 {
+		return "-"
+	}
+	var fs []string
+	for i := 0; i < n; i++ {
+		name := pick(r, pgSortFields)
+		if r.chance(1, 4) && len(fs) > 0 {
+			name = fs[r.intn(len(fs))]
+			name = name[:len(name)-1] // a duplicate of an earlier field, maybe in the other direction
+		}
+		fs = append(fs, name+pick(r, []string{"+", "-", "~"}))
+	}
+	if r.chance(1, 25) {
+		fs[r.intn(len(fs))] = pick(r, []string{"nosuch+", "roles-", "owner+", "a-", "tags.k+"})
+	}
+	return strings.Join(fs, ",")
+}
+
+const c19NaN = "7ff8000000000001"
+
+// c19WithNaN replaces the float of some rows by NaN
+func c19WithNaN(r *rng, ds string) string {
+	if ds == "-" || ds == "0" {
+		return ds
+	}
+	rows := strings.Split(ds, ";")
+	for i, row := range rows {
+		if r.chance(1, 2) {
+			f := strings.Split(row, ",")
+			f[4] = pick(r, []string{c19NaN, c19NaN, "fff8000000000000"})
+			rows[i] = strings.Join(f, ",")
+		}
+	}
+	return strings.Join(rows, ";")
+}
+
+// c19GenNaNKeys: NaN (two bit patterns), +-Inf, -0/+0 and numbers under a float64 SORT key, every iteration order:
+// since 1532996 NaN sorts before every number in both stores (before, the answer depended on the order in which the
+// rows reached the result tree).
+func c19GenNaNKeys(r *rng, out *bufio.Writer, nData, perData int) {
+	fpool := []string{c19NaN, c19NaN, "fff8000000000000", "3ff0000000000000", "4000000000000000", "3fe0000000000000", "N",
+		"7ff0000000000000", "fff0000000000000", "8000000000000000", "0000000000000000"}
+	for d := 0; d < nData; d++ {
+		n := 2 + r.intn(5)
+		rows := strings.Split(pgGenRows(r, n), ";")
+		for i, row := range rows {
+			f := strings.Split(row, ",")
+			f[4] = pick(r, fpool)
+			rows[i] = strings.Join(f, ",")
+		}
+		ds := strings.Join(rows, ";")
+		sp, lp := pgSkipPool(n), pgLimitPool(n)
+		for k := 0; k < perData; k++ {
+			skip, limit := "-", "-"
+			if r.chance(1, 2) {
+				skip, limit = pgPickPaging(r, sp, n, false), pgPickPaging(r, lp, n, true)
+			}
+			sortTok := "f" + pick(r, []string{"+", "-", "~"}) + pick(r, []string{"", "", ",s+", ",b-,i+"})
+			if r.chance(1, 5) {
+				sortTok = pick(r, []string{"s+,", "b-,"}) + sortTok
+			}
+			filter := "true"
+			if r.chance(1, 4) {
+				filter = c19GenFilter(r)
+			}
+			order := pick(r, []string{"fwd", "rev", "map", "rot" + strconv.Itoa(1+r.intn(5))})
+			c19EmitV(out, ds, filter, sortTok, skip, limit, order, "full")
+		}
+	}
+}
+
+func c19GenWide(r *rng, out *bufio.Writer, nData, perData int) {
+	for d := 0; d < nData; d++ {
+		n := r.intn(8)
+		ds := pgGenRows(r, n)
+		nan := r.chance(1, 3)
+		if nan {
+			ds = c19WithNaN(r, ds)
+		}
+		sp, lp := pgSkipPool(n), pgLimitPool(n)
+		for k := 0; k < perData; k++ {
+			skip, limit := pgPickPaging(r, sp, n, false), pgPickPaging(r, lp, n, true)
+			sortTok := c19GenLongSort(r)
+			order := pick(r, []string{"fwd", "rev", "map", "rot" + strconv.Itoa(r.intn(7))})
+			variant := pick(r, []string{"full", "full", "full", "sub", "noid"})
+			var filter string
+			switch r.intn(12) {
+			case 0:
+				filter = "setfn." + pick(r, []string{"anyOf", "allOf", "count", "isEmpty"}) + "." + pick(r, []string{"s", "i", "id", "b", "nosuch"})
+			case 1:
+				filter = pick(r, []string{"cmp.nosuch.eq.S61", "null.nosuch", "notnull.zz", "and~true~null.nosuch", "not~cmp.zz.lt.S62"})
+			case 2, 3:
+				filter = c19GenFilter(r)
+			default:
+				filter = c19GenNested(r, 3)
+			}
+			c19EmitV(out, ds, filter, sortTok, skip, limit, order, variant)
+		}
+	}
 }
 
 func c19GenFilter(r *rng) string {
@@ -108,6 +249,7 @@ func c19Gen(tier string, seed uint64, out *bufio.Writer) {
 			for _, li := range []string{"-", "none", "0", "3"} {
 				c19Emit(out, ds, "true", "-", sk, li, "fwd")
 				c19Emit(out, ds, "null.s", "s-", sk, li, "map")
+				c19Emit(out, ds, "true", []string{"-", "s+", "id-", "b-,i+"}[(len(sk)+len(li))%4], sk, li, "nil")
 			}
 		}
 	}
@@ -130,5 +272,12 @@ func c19Gen(tier string, seed uint64, out *bufio.Writer) {
 			order := pick(r, []string{"fwd", "rev", "map", "rot" + strconv.Itoa(r.intn(7))})
 			c19Emit(out, ds, c19GenFilter(r), sortTok, skip, limit, order)
 		}
+	}
+	if tier == "thorough" {
+		c19GenWide(newRng(seed^0xC19A), out, 2500, 60)
+		c19GenNaNKeys(newRng(seed^0xC19B), out, 600, 30)
+	} else {
+		c19GenWide(newRng(seed^0xC19A), out, 150, 40)
+		c19GenNaNKeys(newRng(seed^0xC19B), out, 40, 25)
 	}
 }
